@@ -912,6 +912,18 @@ def UniqueJob_Drop : String :=
 def SafeCall_Call : String :=
   "Call() { ifc (is_nothrow_invocable_v) { forward(_func)() } else { try { forward(_func)() } catch(...) {  } } }"
 
+def FreeSrc_safe_call_hpp : String :=
+  "#pragma once #include <yaclib/config.hpp> #include <type_traits> #include <utility> namespace yaclib::detail { template <typename Func> class SafeCall { public: using Store = std::decay_t<Func>; using Invoke = std::conditional_t<std::is_function_v<std::remove_reference_t<Func>>, Store, Func>; explicit SafeCall(Store&& f) noexcept(std::is_nothrow_move_constructible_v<Store>) : _func{std::move(f)} { } explicit SafeCall(const Store& f) noexcept(std::is_nothrow_copy_constructible_v<Store>) : _func{f} { } protected: void Call() noexcept { if constexpr (std::is_nothrow_invocable_v<Invoke>) { std::forward<Invoke>(_func)(); } else { try { std::forward<Invoke>(_func)(); } catch (...) { } } } private: YACLIB_NO_UNIQUE_ADDRESS Store _func; }; }"
+
+def FreeSrc_unique_job_hpp : String :=
+  "#pragma once #include <yaclib/exe/job.hpp> #include <yaclib/util/detail/safe_call.hpp> #include <utility> namespace yaclib::detail { template <typename Func> class UniqueJob final : public Job, public SafeCall<Func> { public: using SafeCall<Func>::SafeCall; private: void Call() noexcept final; void Drop() noexcept final; }; template <typename Func> void UniqueJob<Func>::Call() noexcept { SafeCall<Func>::Call(); Drop(); } template <typename Func> void UniqueJob<Func>::Drop() noexcept { delete this; } template <typename Func> Job* MakeUniqueJob(Func&& f) { return new UniqueJob<decltype(std::forward<Func>(f))>{std::forward<Func>(f)}; } }"
+
+def FreeSrc_submit_hpp : String :=
+  "#pragma once #include <yaclib/exe/detail/unique_job.hpp> #include <yaclib/exe/executor.hpp> #include <utility> namespace yaclib { template <typename Func> void Submit(IExecutor& executor, Func&& f) { static_assert(!std::is_base_of_v<Job, std::decay_t<Func>>, \"Please use executor.Submit(job)\"); auto* job = detail::MakeUniqueJob(std::forward<Func>(f)); executor.Submit(*job); } }"
+
+def ResultSrc_result_hpp : String :=
+  "#pragma once #include <yaclib/fwd.hpp> #include <yaclib/util/type_traits.hpp> #include <exception> #include <utility> #include <variant> namespace yaclib { enum class [[nodiscard]] ResultState : unsigned char { Value = 0, Exception = 1, Error = 2, Empty = 3, }; struct [[nodiscard]] StopError final { constexpr StopError(StopTag) noexcept { } constexpr StopError(StopError&&) noexcept = default; constexpr StopError(const StopError&) noexcept = default; constexpr StopError& operator=(StopError&&) noexcept = default; constexpr StopError& operator=(const StopError&) noexcept = default; static const char* What() noexcept { return \"yaclib::StopError\"; } }; YACLIB_DEFINE_VOID_COMPARE(StopError) template <typename Error> class [[nodiscard]] ResultError final : public std::exception { public: ResultError(ResultError&&) noexcept(std::is_nothrow_move_constructible_v<Error>) = default; ResultError(const ResultError&) noexcept(std::is_nothrow_copy_constructible_v<Error>) = default; ResultError& operator=(ResultError&&) noexcept(std::is_nothrow_move_assignable_v<Error>) = default; ResultError& operator=(const ResultError&) noexcept(std::is_nothrow_copy_assignable_v<Error>) = default; explicit ResultError(Error&& error) noexcept(std::is_nothrow_move_constructible_v<Error>) : _error{std::move(error)} { } explicit ResultError(const Error& error) noexcept(std::is_nothrow_copy_constructible_v<Error>) : _error{error} { } [[nodiscard]] Error& Get() & noexcept { return _error; } [[nodiscard]] const Error& Get() const& noexcept { return _error; } const char* what() const noexcept final { return _error.What(); } private: Error _error; }; struct ResultEmpty final : std::exception { const char* what() const noexcept final { return \"yaclib::ResultEmpty\"; } }; template <typename ValueT, typename E> class Result final { static_assert(Check<ValueT>(), \"V should be valid\"); static_assert(Check<E>(), \"E should be valid\"); static_assert(!std::is_same_v<ValueT, E>, \"Result cannot be instantiated with same V and E, because it's ambiguous\"); static_assert(std::is_constructible_v<E, StopTag>, \"Error should be constructable from StopTag\"); using V = std::conditional_t<std::is_void_v<ValueT>, Unit, ValueT>; using Variant = std::variant<V, std::exception_ptr, E, std::monostate>; public: Result(Result&& other) noexcept(std::is_nothrow_move_constructible_v<Variant>) = default; Result(const Result& other) noexcept(std::is_nothrow_copy_constructible_v<Variant>) = default; Result& operator=(Result&& other) noexcept(std::is_nothrow_move_assignable_v<Variant>) = default; Result& operator=(const Result& other) noexcept(std::is_nothrow_copy_assignable_v<Variant>) = default; template <typename... Args, typename = std::enable_if_t<(sizeof...(Args) > 1 || !std::is_same_v<std::decay_t<head_t<Args&&...>>, Result>), void>> Result(Args&&... args) noexcept(std::is_nothrow_constructible_v<Variant, std::in_place_type_t<V>, Args&&...>) : Result{std::in_place, std::forward<Args>(args)...} { } template <typename... Args> Result(std::in_place_t, Args&&... args) noexcept(std::is_nothrow_constructible_v<Variant, std::in_place_type_t<V>, Args&&...>) : _result{std::in_place_type<V>, std::forward<Args>(args)...} { } Result(std::exception_ptr exception) noexcept : _result{std::in_place_type<std::exception_ptr>, std::move(exception)} { } Result(E error) noexcept : _result{std::in_place_type<E>, std::move(error)} { } Result(StopTag tag) noexcept : _result{std::in_place_type<E>, tag} { } Result() noexcept : _result{std::monostate{}} { } template <typename Arg, typename = std::enable_if_t<!is_result_v<std::decay_t<Arg>>, void>> Result& operator=(Arg&& arg) noexcept(std::is_nothrow_assignable_v<Variant, Arg>) { _result = std::forward<Arg>(arg); return *this; } [[nodiscard]] explicit operator bool() const noexcept { return State() == ResultState::Value; } void Ok() & = delete; void Ok() const&& = delete; void Value() & = delete; void Value() const&& = delete; void Exception() & = delete; void Exception() const&& = delete; void Error() & = delete; void Error() const&& = delete; [[nodiscard]] V&& Ok() && { return Get(std::move(*this)); } [[nodiscard]] const V& Ok() const& { return Get(*this); } [[nodiscard]] ResultState State() const noexcept { return ResultState{static_cast<unsigned char>(_result.index())}; } [[nodiscard]] V&& Value() && noexcept { return std::get<V>(std::move(_result)); } [[nodiscard]] const V& Value() const& noexcept { return std::get<V>(_result); } [[nodiscard]] std::exception_ptr&& Exception() && noexcept { return std::get<std::exception_ptr>(std::move(_result)); } [[nodiscard]] const std::exception_ptr& Exception() const& noexcept { return std::get<std::exception_ptr>(_result); } [[nodiscard]] E&& Error() && noexcept { return std::get<E>(std::move(_result)); } [[nodiscard]] const E& Error() const& noexcept { return std::get<E>(_result); } [[nodiscard]] Variant& Internal() { return _result; } [[nodiscard]] const Variant& Internal() const { return _result; } private: template <typename R> static decltype(auto) Get(R&& r) { switch (r.State()) { case ResultState::Value: return std::forward<R>(r).Value(); case ResultState::Exception: std::rethrow_exception(std::forward<R>(r).Exception()); case ResultState::Error: throw ResultError{std::forward<R>(r).Error()}; default: throw ResultEmpty{}; } } Variant _result; }; extern template class Result<>; }"
+
 def Task_ThenOn : String :=
   "Then(e, f) { var CoreT = operator|(operator|(ToUnique, Call), Lazy); return SetCallback(_core, (&e), forward(f)) }"
 
@@ -1289,17 +1301,5 @@ def SetCallbacksDynamic : String :=
 
 def EventHelperCallback_Here : String :=
   "Here(caller) { return event.GetCall().Here(caller) }"
-
-def FreeSrc_safe_call_hpp : String :=
-  "#pragma once #include <yaclib/config.hpp> #include <type_traits> #include <utility> namespace yaclib::detail { template <typename Func> class SafeCall { public: using Store = std::decay_t<Func>; using Invoke = std::conditional_t<std::is_function_v<std::remove_reference_t<Func>>, Store, Func>; explicit SafeCall(Store&& f) noexcept(std::is_nothrow_move_constructible_v<Store>) : _func{std::move(f)} { } explicit SafeCall(const Store& f) noexcept(std::is_nothrow_copy_constructible_v<Store>) : _func{f} { } protected: void Call() noexcept { if constexpr (std::is_nothrow_invocable_v<Invoke>) { std::forward<Invoke>(_func)(); } else { try { std::forward<Invoke>(_func)(); } catch (...) { } } } private: YACLIB_NO_UNIQUE_ADDRESS Store _func; }; }"
-
-def FreeSrc_unique_job_hpp : String :=
-  "#pragma once #include <yaclib/exe/job.hpp> #include <yaclib/util/detail/safe_call.hpp> #include <utility> namespace yaclib::detail { template <typename Func> class UniqueJob final : public Job, public SafeCall<Func> { public: using SafeCall<Func>::SafeCall; private: void Call() noexcept final; void Drop() noexcept final; }; template <typename Func> void UniqueJob<Func>::Call() noexcept { SafeCall<Func>::Call(); Drop(); } template <typename Func> void UniqueJob<Func>::Drop() noexcept { delete this; } template <typename Func> Job* MakeUniqueJob(Func&& f) { return new UniqueJob<decltype(std::forward<Func>(f))>{std::forward<Func>(f)}; } }"
-
-def FreeSrc_submit_hpp : String :=
-  "#pragma once #include <yaclib/exe/detail/unique_job.hpp> #include <yaclib/exe/executor.hpp> #include <utility> namespace yaclib { template <typename Func> void Submit(IExecutor& executor, Func&& f) { static_assert(!std::is_base_of_v<Job, std::decay_t<Func>>, \"Please use executor.Submit(job)\"); auto* job = detail::MakeUniqueJob(std::forward<Func>(f)); executor.Submit(*job); } }"
-
-def ResultSrc_result_hpp : String :=
-  "#pragma once #include <yaclib/fwd.hpp> #include <yaclib/util/type_traits.hpp> #include <exception> #include <utility> #include <variant> namespace yaclib { enum class [[nodiscard]] ResultState : unsigned char { Value = 0, Exception = 1, Error = 2, Empty = 3, }; struct [[nodiscard]] StopError final { constexpr StopError(StopTag) noexcept { } constexpr StopError(StopError&&) noexcept = default; constexpr StopError(const StopError&) noexcept = default; constexpr StopError& operator=(StopError&&) noexcept = default; constexpr StopError& operator=(const StopError&) noexcept = default; static const char* What() noexcept { return \"yaclib::StopError\"; } }; YACLIB_DEFINE_VOID_COMPARE(StopError) template <typename Error> class [[nodiscard]] ResultError final : public std::exception { public: ResultError(ResultError&&) noexcept(std::is_nothrow_move_constructible_v<Error>) = default; ResultError(const ResultError&) noexcept(std::is_nothrow_copy_constructible_v<Error>) = default; ResultError& operator=(ResultError&&) noexcept(std::is_nothrow_move_assignable_v<Error>) = default; ResultError& operator=(const ResultError&) noexcept(std::is_nothrow_copy_assignable_v<Error>) = default; explicit ResultError(Error&& error) noexcept(std::is_nothrow_move_constructible_v<Error>) : _error{std::move(error)} { } explicit ResultError(const Error& error) noexcept(std::is_nothrow_copy_constructible_v<Error>) : _error{error} { } [[nodiscard]] Error& Get() & noexcept { return _error; } [[nodiscard]] const Error& Get() const& noexcept { return _error; } const char* what() const noexcept final { return _error.What(); } private: Error _error; }; struct ResultEmpty final : std::exception { const char* what() const noexcept final { return \"yaclib::ResultEmpty\"; } }; template <typename ValueT, typename E> class Result final { static_assert(Check<ValueT>(), \"V should be valid\"); static_assert(Check<E>(), \"E should be valid\"); static_assert(!std::is_same_v<ValueT, E>, \"Result cannot be instantiated with same V and E, because it's ambiguous\"); static_assert(std::is_constructible_v<E, StopTag>, \"Error should be constructable from StopTag\"); using V = std::conditional_t<std::is_void_v<ValueT>, Unit, ValueT>; using Variant = std::variant<V, std::exception_ptr, E, std::monostate>; public: Result(Result&& other) noexcept(std::is_nothrow_move_constructible_v<Variant>) = default; Result(const Result& other) noexcept(std::is_nothrow_copy_constructible_v<Variant>) = default; Result& operator=(Result&& other) noexcept(std::is_nothrow_move_assignable_v<Variant>) = default; Result& operator=(const Result& other) noexcept(std::is_nothrow_copy_assignable_v<Variant>) = default; template <typename... Args, typename = std::enable_if_t<(sizeof...(Args) > 1 || !std::is_same_v<std::decay_t<head_t<Args&&...>>, Result>), void>> Result(Args&&... args) noexcept(std::is_nothrow_constructible_v<Variant, std::in_place_type_t<V>, Args&&...>) : Result{std::in_place, std::forward<Args>(args)...} { } template <typename... Args> Result(std::in_place_t, Args&&... args) noexcept(std::is_nothrow_constructible_v<Variant, std::in_place_type_t<V>, Args&&...>) : _result{std::in_place_type<V>, std::forward<Args>(args)...} { } Result(std::exception_ptr exception) noexcept : _result{std::in_place_type<std::exception_ptr>, std::move(exception)} { } Result(E error) noexcept : _result{std::in_place_type<E>, std::move(error)} { } Result(StopTag tag) noexcept : _result{std::in_place_type<E>, tag} { } Result() noexcept : _result{std::monostate{}} { } template <typename Arg, typename = std::enable_if_t<!is_result_v<std::decay_t<Arg>>, void>> Result& operator=(Arg&& arg) noexcept(std::is_nothrow_assignable_v<Variant, Arg>) { _result = std::forward<Arg>(arg); return *this; } [[nodiscard]] explicit operator bool() const noexcept { return State() == ResultState::Value; } void Ok() & = delete; void Ok() const&& = delete; void Value() & = delete; void Value() const&& = delete; void Exception() & = delete; void Exception() const&& = delete; void Error() & = delete; void Error() const&& = delete; [[nodiscard]] V&& Ok() && { return Get(std::move(*this)); } [[nodiscard]] const V& Ok() const& { return Get(*this); } [[nodiscard]] ResultState State() const noexcept { return ResultState{static_cast<unsigned char>(_result.index())}; } [[nodiscard]] V&& Value() && noexcept { return std::get<V>(std::move(_result)); } [[nodiscard]] const V& Value() const& noexcept { return std::get<V>(_result); } [[nodiscard]] std::exception_ptr&& Exception() && noexcept { return std::get<std::exception_ptr>(std::move(_result)); } [[nodiscard]] const std::exception_ptr& Exception() const& noexcept { return std::get<std::exception_ptr>(_result); } [[nodiscard]] E&& Error() && noexcept { return std::get<E>(std::move(_result)); } [[nodiscard]] const E& Error() const& noexcept { return std::get<E>(_result); } [[nodiscard]] Variant& Internal() { return _result; } [[nodiscard]] const Variant& Internal() const { return _result; } private: template <typename R> static decltype(auto) Get(R&& r) { switch (r.State()) { case ResultState::Value: return std::forward<R>(r).Value(); case ResultState::Exception: std::rethrow_exception(std::forward<R>(r).Exception()); case ResultState::Error: throw ResultError{std::forward<R>(r).Error()}; default: throw ResultEmpty{}; } } Variant _result; }; extern template class Result<>; }"
 
 end Yaclib.Skeletons
